@@ -454,6 +454,23 @@ def generate(rng, focus, tier="quick"):
             emit({"k": "setfee", "fee": rng.choice([{"kind": "zero"}, {"kind": "pct", "c": rng.choice([1e-3, 0.01]), "t": rng.choice([0.0, 5e-3])},
                                                     {"kind": "pct", "c": rng.choice([2e-3, 0.02]), "t": rng.choice([0.0, 1e-3])}]),
                   "in_place": rng.random() < 0.6})
+        elif r < 0.96 and "C03" in focus and rng.random() < 0.4:
+            # a free-standing Position driven through its whole life directly (the handler deletes flat
+            # positions, so "flat, then traded again" on ONE Position object exists only here)
+            steps, net = [], 0
+            for j in range(rng.randrange(2, 9)):
+                u = rng.random()
+                if net != 0 and u < 0.35:
+                    q = -net                                            # exactly flat
+                elif net != 0 and u < 0.5:
+                    q = -net - (1 if net > 0 else -1) * rng.choice([10, 50, 0.5])   # flipped through zero
+                else:
+                    q = rng.choice([100, -100, 50, -50, 10, -10, 7, -7, 0.5, -0.5, 2.5, -2.5])
+                net += q
+                steps.append({"q": q, "p": round(rng.uniform(1, 200), 2),
+                              "c": rng.choice([0.0, 1.0, -1.0, 2.5, round(rng.uniform(-20, 50), 2)]),
+                              "mark": round(rng.uniform(1, 200), 2) if rng.random() < 0.5 else None})
+            emit({"k": "poslife", "asset": rng.choice(assets), "steps": steps})
         elif r < 0.96 and rng.random() < 0.5:
             # a what-if clone of a live Position (copy / deepcopy / pickle), traded and re-marked on its own
             emit({"k": "whatif", "pid": rng.choice(sh["pids"]), "asset": rng.choice(assets), "qty": _qty(rng),
@@ -1254,6 +1271,19 @@ class Exec(object):
                 for c in got[pid]:
                     ctx.check("C04", c["dt"] == tstamp, "fill_timestamp_not_update_time",
                               lambda: {"t": iso(t), "txn_dt": str(c["dt"])})
+        if ctx.judging("C04") and open_:
+            # "within one update every sell is filled before any buy": across portfolios too (the
+            # transactions are captured in the order in which they reached the portfolios)
+            sides = [(c["pid"], c["asset"], c["qty"]) for c in s.captured if c["qty"] != 0]
+            first_buy = next((i for i, x in enumerate(sides) if x[2] > 0), None)
+            if sum(1 for pid in m.order if got[pid]) > 1:
+                ctx.probe("fills_in_several_portfolios_in_one_update")
+                if first_buy is not None and first_buy > 0:
+                    ctx.probe("sells_and_buys_across_portfolios_in_one_update")
+            ctx.check("C04", first_buy is None or not any(x[2] < 0 for x in sides[first_buy:]),
+                      "sell_filled_after_a_buy_in_the_same_update",
+                      lambda: {"t": iso(t), "fills_in_order": sides[:20]},
+                      sig="sell_filled_after_a_buy_in_the_same_update")
         # --- apply the fills that actually happened to the ledger ---
         for c in s.captured:
             self._apply_fill(c, t, tstamp)
@@ -1463,6 +1493,89 @@ class Exec(object):
             ctx.probe("whatif_clone_raised:" + type(e).__name__)
         ctx.event("whatif", pid, a, how)
         ctx.probe("position_cloned_and_traded_" + how)
+        return False
+
+    def op_poslife(self, op):
+        """A free-standing Position: fills that may take it exactly flat and on again, marks in between;
+        the C03 identities are judged against the list of its fills after every step."""
+        from qstrader.broker.portfolio.position import Position
+        from qstrader.broker.transaction.transaction import Transaction
+        m, ctx = self.m, self.ctx
+        if not ctx.judging("C03"):
+            return False
+        a = op["asset"]
+        fills, net, pos, was_flat = [], Fraction(0), None, False
+
+        def judge(what):
+            tp, rp, up, mv = (float(pos.total_pnl), float(pos.realised_pnl), float(pos.unrealised_pnl),
+                              float(pos.market_value))
+            scale = float(sum(abs(fp * fq) + abs(fc) for fp, fq, fc in fills)) + abs(mv)
+            det = lambda: {"asset": a, "after": what, "total": tp, "realised": rp, "unrealised": up,   # noqa: E731
+                           "market_value": mv, "fills": [(float(fp), float(fq), float(fc)) for fp, fq, fc in fills]}
+            if not ctx.check("C03", frac(pos.net_quantity) == net, "net_quantity_not_sum_of_fills", det,
+                             sig="net_quantity_not_sum_of_fills"):
+                return False
+            if not ctx.check("C03", close(tp, rp + up, scale=scale, rel=1e-12),
+                             "total_pnl_not_realised_plus_unrealised", det):
+                return False
+            want = frac(mv) - sum(fp * fq for fp, fq, fc in fills) - sum(fc for fp, fq, fc in fills)
+            if not ctx.check("C03", close(tp, want, scale=scale), "total_pnl_not_market_value_minus_cash_flows",
+                             det, sig="total_pnl_not_market_value_minus_cash_flows"):
+                return False
+            if net != 0:
+                sgn = 1 if net > 0 else -1
+                side = [(fp, abs(fq), fc) for fp, fq, fc in fills if fq * sgn > 0]
+                qs = sum(fq for fp, fq, fc in side)
+                avg = (sum(fp * fq for fp, fq, fc in side) + sgn * sum(fc for fp, fq, fc in side)) / qs
+                want_un = (frac(mv) / net - avg) * net
+                if not ctx.check("C03", close(up, want_un, scale=scale),
+                                 "unrealised_pnl_not_price_minus_avg_cost_times_net", det,
+                                 sig="unrealised_pnl_not_price_minus_avg_cost_times_net"):
+                    return False
+            return True
+
+        for j, st in enumerate(op["steps"]):
+            t_ = ts(m.now + j)
+            txn = Transaction(a, st["q"], t_, float(st["p"]), "life-%d" % j, commission=float(st["c"]))
+            if pos is None:
+                try:
+                    pos = Position.open_from_transaction(txn)
+                    ok, exc = True, None
+                except Exception as e:
+                    from qsim.core import raised_in_repo as _rir
+                    if not _rir(e):
+                        raise
+                    ok, exc = False, e
+            else:
+                ok, exc = self._call(pos.transact, txn)
+            if not ok:
+                ctx.violate("C03", "valid_fill_raised", {"asset": a, "step": j, "exc": repr(exc)[:300]},
+                            sig="valid_fill_raised:" + type(exc).__name__)
+                return False
+            fills.append((frac(float(st["p"])), frac(st["q"]), frac(float(st["c"]))))
+            if was_flat:
+                ctx.probe("position_traded_again_after_exactly_flat")
+            net += frac(st["q"])
+            was_flat = (net == 0)
+            if was_flat:
+                ctx.probe("standalone_position_exactly_flat")
+            if not judge("fill %d" % j):
+                return False
+            if st["mark"] is not None:
+                before = (fhex(pos.realised_pnl), fhex(pos.net_quantity))
+                ok, exc = self._call(pos.update_current_price, float(st["mark"]), t_)
+                if not ok:
+                    ctx.violate("C03", "valid_mark_raised", {"asset": a, "step": j, "exc": repr(exc)[:300]},
+                                sig="valid_mark_raised:" + type(exc).__name__)
+                    return False
+                after = (fhex(pos.realised_pnl), fhex(pos.net_quantity))
+                if not ctx.check("C03", before == after, "realised_pnl_or_quantity_changed_without_fill",
+                                 lambda: {"asset": a, "before": before, "after": after, "mark": st["mark"]},
+                                 sig="realised_pnl_or_quantity_changed_without_fill"):
+                    return False
+                if not judge("mark %d" % j):
+                    return False
+        ctx.event("poslife", a, len(fills), fhex(pos.total_pnl))
         return False
 
     def op_pftxn(self, op):
